@@ -1,9 +1,12 @@
 // Package c01: rendering any document terminates without crashing; invalid constructs are
 // skipped and the rest of the document is rendered identically.
 //
-// Three families, all through tree.NewHTML → document.Render → Write(recording backend):
-// markup shapes (prefix tree of HTML tokens), styled skeletons × deviation lattice of
-// declarations (levels 0, 1, 2), and render configurations (page geometry, hints, engine, zoom).
+// Families, all through tree.NewHTML → document.Render → Write(recording backend):
+// markup shapes (prefix tree of HTML tokens); SVG reference graphs and SVG nesting (every container
+// element × every short sequence of child kinds); styled skeletons × deviation lattice of
+// declarations (levels 0, 1, 2) on the style slots of the elements, of html and body, and on the
+// skeleton's context slots (pseudo-elements, page-margin boxes, footnote area); render
+// configurations (page geometry, hints, engine, zoom).
 package c01
 
 import (
@@ -20,7 +23,7 @@ import (
 type dev struct{ slot, decl int }
 
 type caseT struct {
-	fam  byte // 'm' markup, 's' skeleton
+	fam  byte // 'm' markup, 's' skeleton, 'g' SVG reference graph, 'n' SVG nesting
 	sk   int
 	devs []dev
 	cfg  int
@@ -92,9 +95,9 @@ var skeletons = []skeleton{
 	{"toc", `a::after{content:leader('.') target-counter(attr(href),page);{6}} a::before{content:target-text(attr(href)) " ";{7}} h2{string-set:t content()}`,
 		`<ul style="{0}"><li style="{1}"><a href="#t" style="{2}">ab</a></li><li><a href="#u">cd</a></li></ul><h2 id="t" style="{3}">ef</h2><p id="u">gh</p>`, 4,
 		[]string{"::after", "::before"}, contentMenu},
-	// several footnotes in one paragraph, the footnote area and the call / marker pseudo-elements
+	// five footnote calls on one line, the footnote area and the call / marker pseudo-elements
 	{"footnotes", `.f{float:footnote} @page{@footnote{{6}}} .f::footnote-call{{7}} .f::footnote-marker{{8}}`,
-		`<p style="{0}">ab<span class="f" style="{1}">cd</span> ef<span class="f">gh</span><span class="f" style="{2}">ij</span> kl<span class="f">mn</span><span class="f">op</span></p><p style="{3}">qr</p>`, 4,
+		`<p style="{0}">ab<span class="f" style="{1}">cd</span><span class="f">ef</span><span class="f" style="{2}">gh</span><span class="f">ij</span><span class="f">kl</span> mn</p><p style="{3}">op</p>`, 4,
 		[]string{"@footnote", "::footnote-call", "::footnote-marker"}, footnoteMenu},
 	// a running element that is a subtree (block children, inline grandchild) placed in a margin box
 	{"running-tree", `@page{@top-center{content:element(h);{6}}}`,
